@@ -29,10 +29,10 @@ and `c12.grpc` compare both with the same model function `accessDeniedTCP` -/
 theorem tcp_and_grpc_share_decision : tcpDelegatesToAddr = true := by decide
 
 /-- the auth scheme type: a string and the htpasswd file handle; `Authorized` calls `BasicAuth`, `Header`, `Set`,
-`Match` — `c12.auth`, `c12.authseq` (histories on one long-lived instance), `c12.gate`, `c12.grpc` -/
+`Match`, and — since the repair of D32 — `recover` and `log.Printf` in a deferred guard around `Match` — `c12.auth`, `c12.authseq` (histories on one long-lived instance), `c12.gate`, `c12.grpc` -/
 theorem auth_scheme_shape_pinned :
     authSchemeTypes = 1 ∧ authSchemeFieldTypes = ["*htpasswd.File", "string"] ∧
-    authorizedCallees = ["BasicAuth", "Header", "Match", "Set"] := by decide
+    authorizedCallees = ["BasicAuth", "Header", "Match", "Printf", "Set", "recover"] := by decide
 
 /-- the keys of the rule map — `c12.decide` compares the dumped map (the hook reads the same constants) -/
 theorem tags_pinned : ipAllowTag = "allow:ip" ∧ ipDenyTag = "deny:ip" := by decide
